@@ -65,7 +65,7 @@ def gen_emit_case(rng):
         fs = c05.gen_flagset(rng, dict(core=[("var", "Major"), ("var", "Minor"), ("var", "Patch")], extra_core=[("var", "Epoch"), ("var", "PreRelease")], build=[]))
         argv = [a for a in base_argv] + [t for g in fs.groups for t in g]
         if rng.random() < 0.5 and "--source" in argv and argv[argv.index("--source") + 1] == "none":
-            argv += ["--bumped-branch", objgen.rand_text(rng, False).replace("\x00", "")]
+            argv += ["--bumped-branch=" + (objgen.rand_text(rng, False).replace("\x00", ""))]
         if rng.random() < 0.25:
             argv += [rng.choice(["--epoch=0", "--post=0", "--dev=0", "--pre-release-num=0", "--bump-epoch=0", "--distance=0"])]
         if rng.random() < 0.5:
@@ -81,7 +81,7 @@ def gen_emit_case(rng):
     f["build"] = None
     argv = ["flow", "--source", "none", "--tag-version", c07.canon_semver(f), "--output-format", "zerv"]
     if rng.random() < 0.8:
-        argv += ["--bumped-branch", objgen.rand_text(rng, False).replace("\x00", "") or "main"]
+        argv += ["--bumped-branch=" + (objgen.rand_text(rng, False).replace("\x00", "") or "main")]
     if rng.random() < 0.6:
         argv += ["--distance", str(rng.choice([0, 1, 5]))]
     if rng.random() < 0.4:
